@@ -2,6 +2,7 @@ package c07
 
 import (
 	"context"
+	"encoding/hex"
 	"fmt"
 	"io"
 	"net"
@@ -11,6 +12,7 @@ import (
 	"github.com/enfein/mieru/v3/apis/client"
 	apicommon "github.com/enfein/mieru/v3/apis/common"
 	"github.com/enfein/mieru/v3/pkg/appctl/appctlpb"
+	mcipher "github.com/enfein/mieru/v3/pkg/cipher"
 	"google.golang.org/protobuf/proto"
 
 	"verif/engine/explore"
@@ -223,6 +225,219 @@ func worldUnits(tier string) []runner.Unit {
 			}
 			if udp && tier == "thorough" {
 				add(wparams{UDP: udp, Mandatory: mand, Racing: true, Delay: 5 * time.Millisecond, Ds: 1}, fmt.Sprintf("server-udp=%v-mandatory=%v-reload-at-5ms-schedules", udp, mand))
+			}
+		}
+	}
+	return us
+}
+
+// ---- Part D: reload shapes on the real server ----
+
+// A reload may change the user list in several ways; each shape is run with the users
+// registered by plaintext password, by hashed password only, and by both fields.
+type rshape struct {
+	name  string
+	steps [][][3]string // successive user lists: {name, password, quota-MB ("" = none)}
+}
+
+var rshapes = []rshape{
+	{"identical", [][][3]string{{{"alice", "pw-a", ""}, {"bob", "pw-b", ""}, {"carol", "pw-c", ""}}}},
+	{"password-changed", [][][3]string{{{"alice", "pw-a", ""}, {"bob", "pw-b2", ""}, {"carol", "pw-c", ""}}}},
+	{"passwords-swapped", [][][3]string{{{"alice", "pw-b", ""}, {"bob", "pw-a", ""}, {"carol", "pw-c", ""}}}},
+	{"renamed", [][][3]string{{{"alice", "pw-a", ""}, {"robert", "pw-b", ""}, {"carol", "pw-c", ""}}}},
+	{"added", [][][3]string{{{"alice", "pw-a", ""}, {"bob", "pw-b", ""}, {"carol", "pw-c", ""}, {"dave", "pw-d", ""}}}},
+	{"quota-only", [][][3]string{{{"alice", "pw-a", ""}, {"bob", "pw-b", "900"}, {"carol", "pw-c", ""}}}},
+	{"all-but-one-removed", [][][3]string{{{"carol", "pw-c", ""}}}},
+	{"changed-and-back", [][][3]string{{{"alice", "pw-a", ""}, {"bob", "pw-b2", ""}, {"carol", "pw-c", ""}}, {{"alice", "pw-a", ""}, {"bob", "pw-b", ""}, {"carol", "pw-c", ""}}}},
+	{"removed-and-back", [][][3]string{{{"alice", "pw-a", ""}, {"carol", "pw-c", ""}}, {{"alice", "pw-a", ""}, {"bob", "pw-b", ""}, {"carol", "pw-c", ""}}}},
+}
+
+type rparams struct {
+	UDP       bool
+	Mandatory bool
+	Rep       int // 0 plaintext password, 1 hashed password only, 2 both fields
+	Shape     int
+	Seed      int64
+}
+
+func (p rparams) String() string {
+	return fmt.Sprintf("udp=%v hint-mandatory=%v users-registered-by=%s reload=%s", p.UDP, p.Mandatory, []string{"password", "hashedPassword", "both"}[p.Rep], rshapes[p.Shape].name)
+}
+
+func repUser(rep int, e [3]string) *appctlpb.User {
+	u := &appctlpb.User{Name: proto.String(e[0])}
+	if rep != 1 {
+		u.Password = proto.String(e[1])
+	}
+	if rep != 0 {
+		u.HashedPassword = proto.String(hex.EncodeToString(mcipher.HashPassword([]byte(e[1]), []byte(e[0]))))
+	}
+	if e[2] != "" {
+		var mb int32
+		fmt.Sscan(e[2], &mb)
+		u.Quotas = []*appctlpb.Quota{{Days: proto.Int32(1), Megabytes: proto.Int32(mb)}}
+	}
+	return u
+}
+
+func rexec(p rparams, ctl *explore.Ctl) explore.Result {
+	v := &xfer.Verdict{Prop: "C07"}
+	initial := [][3]string{{"alice", "pw-a", ""}, {"bob", "pw-b", ""}, {"carol", "pw-c", ""}}
+	lists := append([][][3]string{initial}, rshapes[p.Shape].steps...)
+	var users []*appctlpb.User
+	for _, e := range initial {
+		users = append(users, repUser(p.Rep, e))
+	}
+	cfg := world.Config{UDP: p.UDP, MTU: 1400, Users: users, Seed: p.Seed, Horizon: 600 * time.Second, RawMux: true, HintMandatory: p.Mandatory}
+	// every credential that appears in any list, dialled from one address per name
+	type cred struct{ name, pw string }
+	var creds []cred
+	seen := map[cred]bool{}
+	for _, l := range lists {
+		for _, e := range l {
+			c := cred{e[0], e[1]}
+			if !seen[c] {
+				seen[c] = true
+				creds = append(creds, c)
+			}
+		}
+	}
+	type acc struct {
+		tag  int
+		user string
+	}
+	var accepted []acc
+	results := map[int]string{}
+	ex := world.Run(cfg, ctl, func(w *world.World) {
+		w.Go("srv-accept", "server", func() {
+			for {
+				c, err := w.RawAccept()
+				if err != nil {
+					return
+				}
+				w.Go("srv-app", "server", func() {
+					req := make([]byte, 10)
+					if _, err := io.ReadFull(c, req); err != nil {
+						c.Close()
+						return
+					}
+					tag := int(req[8])<<8 | int(req[9])
+					name := ""
+					if uc, ok := c.(apicommon.UserContext); ok {
+						name = uc.UserName()
+					}
+					accepted = append(accepted, acc{tag, name})
+					c.Write([]byte{5, 0, 0, 1, 0, 0, 0, 0, 0, 0})
+					buf := make([]byte, 64)
+					n, _ := c.Read(buf)
+					c.Write(buf[:n])
+					c.Close()
+				})
+			}
+		})
+		dial := func(ci int, tag int) {
+			c := creds[ci]
+			ip := net.IPv4(10, 9, 1, byte(1+ci%2)) // two addresses shared by all credentials
+			var cli client.Client
+			var err error
+			w.OnNode("client", func() { cli, err = w.NewClient(pbUser(c.name, c.pw), ip) })
+			if err != nil {
+				results[tag] = "setup:" + err.Error()
+				return
+			}
+			defer w.OnNode("client", func() { cli.Stop() })
+			var conn net.Conn
+			w.OnNode("client", func() {
+				ctx, cancel := context.WithTimeout(context.Background(), time.Hour)
+				defer cancel()
+				conn, err = cli.DialContext(ctx, &net.TCPAddr{IP: net.IPv4(93, 184, 216, 34), Port: tag})
+			})
+			if err != nil {
+				results[tag] = "refused:" + err.Error()
+				return
+			}
+			msg := []byte(fmt.Sprintf("hello-%d", tag))
+			conn.Write(msg)
+			buf := make([]byte, len(msg))
+			conn.SetReadDeadline(w.S.Now().Add(20 * time.Second))
+			if _, err := io.ReadFull(conn, buf); err != nil {
+				results[tag] = "refused:" + err.Error()
+			} else {
+				results[tag] = "served"
+			}
+			conn.Close()
+		}
+		for phase, l := range lists {
+			if phase > 0 {
+				m := map[string]*appctlpb.User{}
+				for _, e := range l {
+					m[e[0]] = repUser(p.Rep, e)
+				}
+				w.OnNode("server", func() { w.SMux.SetServerUsers(m) })
+			}
+			// every credential, one after the other (twice: the second round meets warm caches)
+			for round := 0; round < 2; round++ {
+				for ci := range creds {
+					dial(ci, 1000*(phase+1)+100*round+ci)
+				}
+			}
+		}
+		vsched.Sleep(100 * time.Millisecond)
+		w.Shutdown()
+	})
+	for _, pn := range ex.Panics {
+		v.Add("panic", "%s", pn)
+	}
+	if len(v.Viol) == 0 {
+		byTag := map[int]string{}
+		for _, a := range accepted {
+			byTag[a.tag] = a.user
+		}
+		for phase, l := range lists {
+			valid := map[cred]bool{}
+			for _, e := range l {
+				valid[cred{e[0], e[1]}] = true
+			}
+			for round := 0; round < 2; round++ {
+				for ci, c := range creds {
+					tag := 1000*(phase+1) + 100*round + ci
+					user, acc := byTag[tag]
+					what := fmt.Sprintf("credential %s/%s after %d reload(s) (round %d)", c.name, c.pw, phase, round)
+					switch {
+					case valid[c] && results[tag] != "served":
+						v.Add("valid-user-rejected", "%s is in the current user list but was not served: %s", what, results[tag])
+					case !valid[c] && (acc || results[tag] == "served"):
+						v.Add("accepted-without-valid-credential", "%s is not in the current user list but the server accepted the session (attributed to %q)", what, user)
+					case valid[c] && user != c.name:
+						v.Add("attributed-to-wrong-user", "%s: the session is attributed to %q", what, user)
+					}
+				}
+			}
+		}
+	}
+	out := fmt.Sprintf("ok/%d-dials", len(results))
+	if len(v.Viol) > 0 {
+		out = v.Viol[0].Signature
+	}
+	return explore.Result{Outcome: out, Violations: v.Viol, Steps: ex.Steps}
+}
+
+func reloadShapeUnits(tier string) []runner.Unit {
+	var us []runner.Unit
+	i := 100
+	for _, udp := range []bool{false, true} {
+		for _, mand := range []bool{false, true} {
+			for rep := 0; rep < 3; rep++ {
+				udp, mand, rep := udp, mand, rep
+				us = append(us, runner.Unit{Name: fmt.Sprintf("reload-shapes-udp=%v-mandatory=%v-rep%d", udp, mand, rep), Cost: 3, Run: func(u *runner.U) {
+					for si := range rshapes {
+						p := rparams{UDP: udp, Mandatory: mand, Rep: rep, Shape: si, Seed: int64(i + si)}
+						if si == 0 {
+							u.Sample(p.String())
+						}
+						u.Explore(explore.Bound{}, p.String(), func(ctl *explore.Ctl) explore.Result { return rexec(p, ctl) })
+					}
+				}})
 			}
 		}
 	}
